@@ -114,6 +114,15 @@ inline std::uint8_t* arbitrary_bytes(std::size_t n) {
   return buf;
 }
 
+// the same contents in a fixed-size array (logical length n <= MAXN).  Used where the exactly-sized heap
+// object makes the formula intractable (tables); an access beyond n but inside the array is then not a CBMC
+// pointer failure — that the readers never go beyond their size_ is their own contract (C17 jobs).
+template <std::size_t MAXN>
+inline std::uint8_t* arbitrary_bytes_fixed(std::uint8_t (&store)[MAXN], std::size_t n) {
+  for (std::size_t i = 0; i < MAXN; i++) store[i] = (i < n) ? nondet<std::uint8_t>() : static_cast<std::uint8_t>(0);
+  return store;
+}
+
 // ---------------------------------------------------------------- C03 / C06: the encoder
 // Write(v) emits exactly the specification encoding; GetSize(v) equals its length (for
 // handle-free T); writing the same object again produces the same bytes.
@@ -148,11 +157,12 @@ void lemma_encode() {
 // accepts, same value, same number of bytes consumed; the destination starts in an arbitrary
 // prior state.  Memory safety of every access inside the lowered library code is CBMC's
 // own obligation (pointer / bounds / overflow checks).
-template <typename T, typename R, std::size_t MAXN, bool EXACT_CATEGORY>
+template <typename T, typename R, std::size_t MAXN, bool EXACT_CATEGORY, bool HEAP = true>
 void lemma_decode() {
   const std::size_t n = nondet<std::uint8_t>();
   vt_assume(n <= MAXN);
-  std::uint8_t* buf = arbitrary_bytes<MAXN>(n);
+  std::uint8_t store[MAXN];
+  std::uint8_t* buf = HEAP ? arbitrary_bytes<MAXN>(n) : arbitrary_bytes_fixed<MAXN>(store, n);
   ReaderKit<R> k;
   k.init(buf, n);
   T out;
@@ -173,7 +183,7 @@ void lemma_decode() {
   }
   vt_cover(accept, "an accepted input exists");
   vt_cover(!accept && n == MAXN, "a rejected full-length input exists");
-  vt_free_bytes(buf);
+  if (HEAP) vt_free_bytes(buf);
 }
 
 // ------------------------------------------------------------------------- C01: round trip
@@ -212,11 +222,12 @@ void lemma_roundtrip() {
 // ------------------------------------------------------------------------ C05: truncation
 // Any byte string the specification decoder accepts (so: every valid encoding, minimal or
 // not, with or without padding), cut at any k < its length, is rejected by reader R.
-template <typename T, typename R, std::size_t MAXN>
+template <typename T, typename R, std::size_t MAXN, bool HEAP = true>
 void lemma_truncate() {
   const std::size_t n = nondet<std::uint8_t>();
   vt_assume(n <= MAXN);
-  std::uint8_t* whole = arbitrary_bytes<MAXN>(n);
+  std::uint8_t store[MAXN], store_cut[MAXN];
+  std::uint8_t* whole = HEAP ? arbitrary_bytes<MAXN>(n) : arbitrary_bytes_fixed<MAXN>(store, n);
   fmt::In in;
   fmt::init(in, whole, n);
   T ref;
@@ -225,7 +236,7 @@ void lemma_truncate() {
   const std::size_t len = in.pos;
   const std::size_t k = nondet<std::uint8_t>();
   vt_assume(k < len);
-  std::uint8_t* cut = vt_alloc_bytes(k);
+  std::uint8_t* cut = HEAP ? vt_alloc_bytes(k) : store_cut;
   for (std::size_t i = 0; i < MAXN; i++)
     if (i < k) cut[i] = whole[i];
   ReaderKit<R> rk;
@@ -237,8 +248,10 @@ void lemma_truncate() {
   vt_check(!static_cast<bool>(st), "a strict prefix of a valid encoding is rejected");
   vt_cover(k + 1 == len, "cut just before the last byte reached");
   vt_cover(k == 0 && len > 0, "empty prefix reached");
-  vt_free_bytes(cut);
-  vt_free_bytes(whole);
+  if (HEAP) {
+    vt_free_bytes(cut);
+    vt_free_bytes(whole);
+  }
 }
 
 // ------------------------------------------------------ C06: GetSize and buffer capacity
@@ -291,11 +304,12 @@ void lemma_fault_write() {
   vt_cover(w.failed == 0, "fault-free run reached");
 }
 
-template <typename T, std::size_t MAXN>
+template <typename T, std::size_t MAXN, bool HEAP = true>
 void lemma_fault_read() {
   const std::size_t n = nondet<std::uint8_t>();
   vt_assume(n <= MAXN);
-  std::uint8_t* buf = arbitrary_bytes<MAXN>(n);
+  std::uint8_t store[MAXN];
+  std::uint8_t* buf = HEAP ? arbitrary_bytes<MAXN>(n) : arbitrary_bytes_fixed<MAXN>(store, n);
   SpecReader r;
   r.Init(buf, n);
   r.fail_at = nondet<std::uint8_t>();
@@ -310,7 +324,7 @@ void lemma_fault_read() {
   vt_check(!static_cast<bool>(st) || r.failed == 0, "success is never reported after a failed I/O call");
   vt_cover(r.failed != 0, "a failing run reached");
   vt_cover(static_cast<bool>(st), "successful read reached");
-  vt_free_bytes(buf);
+  if (HEAP) vt_free_bytes(buf);
 }
 
 }  // namespace vt
